@@ -58,6 +58,36 @@ class _SlowFor:
         return 0.0
 
 
+COLLECT = []      # runs with a chosen arrival order, compared with the Lean model after the relational pass
+
+
+def _perm_map(order):
+    """a map function that runs the tasks one after the other and hands the results to the reducer in the given order"""
+    def perm_map(task, values, task_args=None, task_kwargs=None, reduce_func=None, map_kw=None, progress_bar=None, progress_bar_kwargs={}):
+        task_args = task_args or ()
+        task_kwargs = task_kwargs or {}
+        values = list(values)
+        out = {}
+        for i in order:
+            if i < len(values):
+                r = task(values[i], *task_args, **task_kwargs)
+                if reduce_func is not None:
+                    reduce_func(r)
+                else:
+                    out[i] = r
+        return None if reduce_func is not None else [out[i] for i in sorted(out)]
+    return perm_map
+
+
+def _which_task(ref, sig, seeds, reported):
+    """the task whose (alone-run) trajectory this is: the one of the reported seed when that fits (two seeds may give the
+    same trajectory, e.g. without jumps), else any other that fits, else None"""
+    keys = [seed_key(s) for s in seeds]
+    first = keys.index(seed_key(reported)) if seed_key(reported) in keys else None
+    cands = ([first] if first is not None else []) + [i for i in range(len(seeds)) if i != first]
+    return next((i for i in cands if same(ref[i], sig) is None), None)
+
+
 def narrow_pulse(t):
     return 12.0 if 0.50 <= t < 0.56 else 0.0
 
@@ -297,6 +327,30 @@ def relational(rep, tier, rng):
                 if d:
                     viol.append((f"parallel:{name}", f"{name}: trajectory reported under seed {i} by the {workers}-worker run (completion order {got_order}) is not that seed's trajectory ({d})"))
                     break
+        # (6b) correspondence with the Lean model of what the reducer keeps (Qv.C13.collect): a map function that hands
+        #      the results over in a chosen order; the seeds reported and the trajectory stored at each position must be
+        #      the model's
+        import qutip.solver.parallel as _par
+        orders = [[2, 0, 3, 1], [3, 2, 1, 0], [1, 0, 2]] if tier == "quick" else [[2, 0, 3, 1], [3, 2, 1, 0], [1, 0, 2], [0, 3, 1, 2], [4, 0, 3, 1, 2]]
+        for order in orders:
+            ntr = len(order)
+            _par._maps["qv_perm"] = _perm_map(order)
+            try:
+                solp, st = make_solver2(name, map="qv_perm")
+                with core.time_limit(300):
+                    rq = solp.run(st, TL, ntraj=ntr, e_ops=eops, seeds=list(seeds[:ntr]))
+            except core.CaseTimeout:
+                raise
+            except Exception as e:      # noqa
+                viol.append((f"ordered-map-raises:{name}", f"{name} with results arriving in the order {order}: {type(e).__name__}: {e}"[:200]))
+                continue
+            finally:
+                _par._maps.pop("qv_perm", None)
+            COLLECT.append({"name": name, "order": order,
+                            "line": "C13.collect " + json.dumps({"seeds": [{"entropy": int(sd.entropy), "key": [int(x) for x in sd.spawn_key]} for sd in seeds[:ntr]], "order": order}),
+                            "seeds": [[int(x) for x in sd.spawn_key] for sd in rq.seeds],
+                            "runs": [_which_task(ref, traj_sig(rq, pos), seeds[:ntr], rq.seeds[pos]) for pos in range(len(rq.seeds))],
+                            "keys": [[int(x) for x in sd.spawn_key] for sd in seeds[:ntr]]})
     # (7) mixed initial ensemble: a trajectory is a function of its seed and of the member state it starts from
     try:
         H, c, psi0 = problem()
@@ -528,6 +582,31 @@ def run(tier, seed, replay):
         if sig not in seen:
             seen.add(sig)
             rep.violation(core.Violation("C13:" + sig, what, {"what": what}))
+    # what the reducer keeps, under a chosen arrival order: real solvers against Qv.C13.collect
+    if COLLECT:
+        cm = core.run_driver([c["line"] for c in COLLECT])
+        ncd, firstc = 0, None
+        for c, m in zip(COLLECT, cm):
+            rep.count("arrival-order-correspondence")
+            rep.evaluations += 1
+            # the property itself: the run stored at a position is the trajectory of the seed reported there
+            paired = [c["keys"].index(k) if k in c["keys"] else None for k in c["seeds"]]
+            if paired != c["runs"] and ("C13:arrival-order-pairing:" + c["name"]) not in {v.signature for v in rep.violations}:
+                rep.violation(core.Violation("C13:arrival-order-pairing:" + c["name"],
+                                             f"{c['name']}: with results arriving in the order {c['order']} the result reports the seeds of tasks {paired} "
+                                             f"but stores the trajectories of tasks {c['runs']} at these positions",
+                                             {"solver": c["name"], "arrival_order": c["order"], "reported_seed_tasks": paired, "stored_trajectory_tasks": c["runs"]}))
+            want_seeds = [x.get("key") for x in m.get("seeds", [])] if isinstance(m, dict) else None
+            want_runs = [c["keys"].index(k) if k in c["keys"] else None for k in m.get("runs", [])] if isinstance(m, dict) else None
+            if want_seeds != c["seeds"] or want_runs != c["runs"]:
+                ncd += 1
+                if firstc is None:
+                    firstc = {"line": c["line"], "solver": c["name"], "model": m, "impl": {"seeds": c["seeds"], "runs": c["runs"]}}
+        rep.notes["arrival_order_disagreements"] = ncd
+        if ncd:
+            ndis += ncd
+            rep.broken.append({"kind": "correspondence", "which": "C13.collect", "count": ncd, "first": firstc})
+        del COLLECT[:]
     if (ndis or not proved) and not rep.violations:
         rep.violation(core.Violation("C13:unverified", "model/proof no longer matches the code and no failing input was found",
                                      {"broken": rep.broken}, failing_input_found=False))
